@@ -1,6 +1,6 @@
 //! C04 - sharded assembly equals unsharded assembly.
 use super::note;
-use crate::case::{GCase, Part};
+use vglue::case::{GCase, Part};
 use crate::pipe::*;
 use debruijn::compression::*;
 use debruijn::dna_string::DnaString;
